@@ -20,10 +20,21 @@ func tryReplay(e *eng.Engine, p Prop, o *eng.Obl, replayDir, repo, why, output s
 	vals := o.ValueTerms()
 	script := e.StandaloneScript(o, true, vals)
 	os.WriteFile(smt, []byte(script), 0o644)
-	sout := o.Status + " (" + o.Solver + "; no model requested: the solvers did not answer sat)"
+	sout := o.Status + " (" + o.Solver + "; the solvers did not answer sat on the full obligation)"
 	if o.Status == "sat" {
 		out, _ := exec.Command("z3-new", "timeout=8000", smt).CombinedOutput()
 		sout = string(out)
+	}
+	if !strings.HasPrefix(strings.TrimSpace(sout), "sat") {
+		// candidate counterexample from the quantifier-free relaxation (confirmed or discarded by the replay)
+		if rs := e.RelaxedScript(o, vals); rs != "" {
+			rf := filepath.Join(replayDir, p.ID+"-"+eng.SanitizeName(o.Name)+".relaxed.smt2")
+			os.WriteFile(rf, []byte(rs), 0o644)
+			out, _ := exec.Command("z3-new", "timeout=8000", rf).CombinedOutput()
+			if strings.HasPrefix(strings.TrimSpace(string(out)), "sat") {
+				sout = string(out) + "\n(model of the quantifier-free relaxation " + rf + "; full obligation: " + o.Status + ")"
+			}
+		}
 	}
 	if len(sout) > 20000 {
 		sout = sout[:20000] + "\n...(truncated)"
